@@ -26,6 +26,12 @@ fn main() {
         usage();
     }
     let prop = args[1].clone();
+    if prop == "diag-flatten" {
+        // diagnostic, not a check: flatten the mesh of a C20 replay file with the library as it
+        // is and print how far the edge lengths move
+        diag_flatten(&args[2]);
+        return;
+    }
     let mut opt = Options {
         tier: match std::env::var("VERIF_TIER").ok().as_deref() {
             Some("thorough") => Tier::Thorough,
@@ -114,4 +120,39 @@ fn main() {
         }
     };
     std::process::exit(code);
+}
+
+fn diag_flatten(path: &str) {
+    use engeom::{Mesh, Point3};
+    let j: serde_json::Value = serde_json::from_str(&std::fs::read_to_string(path).expect("read")).expect("json");
+    let m = &j["scenario"]["mesh"];
+    let v: Vec<[f64; 3]> = serde_json::from_value(m["v"].clone()).unwrap();
+    let f: Vec<[u32; 3]> = serde_json::from_value(m["f"].clone()).unwrap();
+    faer::set_global_parallelism(faer::Par::Seq);
+    let mesh = Mesh::new(v.iter().map(|p| Point3::new(p[0], p[1], p[2])).collect(), f.clone(), false);
+    let e = mesh.calc_edges().expect("edges");
+    let uv = e.boundary_first_flatten().expect("flatten");
+    let d3 = |a: usize, b: usize| ((v[a][0] - v[b][0]).powi(2) + (v[a][1] - v[b][1]).powi(2) + (v[a][2] - v[b][2]).powi(2)).sqrt();
+    let d2 = |a: usize, b: usize| ((uv[a].x - uv[b].x).powi(2) + (uv[a].y - uv[b].y).powi(2)).sqrt();
+    let (mut worst, mut worst_rel, mut lmax, mut at) = (0.0f64, 0.0f64, 0.0f64, (0usize, 0usize));
+    for t in &f {
+        for k in 0..3 {
+            let (a, b) = (t[k] as usize, t[(k + 1) % 3] as usize);
+            let (l3, l2) = (d3(a, b), d2(a, b));
+            lmax = lmax.max(l3);
+            if (l3 - l2).abs() > worst {
+                worst = (l3 - l2).abs();
+                at = (a, b);
+            }
+            worst_rel = worst_rel.max((l3 - l2).abs() / l3);
+        }
+    }
+    let mut size = 0.0f64;
+    for k in 0..3 {
+        let lo = v.iter().fold(f64::INFINITY, |m, p| m.min(p[k]));
+        let hi = v.iter().fold(f64::NEG_INFINITY, |m, p| m.max(p[k]));
+        size += (hi - lo).powi(2);
+    }
+    let size = size.sqrt();
+    println!("vertices {} faces {} size {:.4e} lmax {:.4e} worst |dl| {:.4e} (= {:.3e} lmax = {:.3e} size) at edge {:?} (length {:.4e}), worst relative {:.3e}", v.len(), f.len(), size, lmax, worst, worst / lmax, worst / size, at, d3(at.0, at.1), worst_rel);
 }
